@@ -649,6 +649,26 @@ func rwGenCase(t *rapid.T, faults bool) rwCase {
 		}
 		c.Ops = append(append(append([]rwOp{}, c.Ops[:pos]...), burst...), c.Ops[pos:]...)
 	}
+	if !faults && rapid.IntRange(0, 29).Draw(t, "longStream") == 0 {
+		// rare: one target stream carries more than 1024 tasks over time, acknowledged in uneven steps, so that the window
+		// of outstanding proxy ids travels around the physical end of the 1024-slot table without making it grow
+		src, tg := rapid.IntRange(0, c.NS-1).Draw(t, "lsSrc"), rapid.IntRange(0, c.NT-1).Draw(t, "lsTgt")
+		var long []rwOp
+		long = append(long, rwOp{K: "connect", Side: "T", I: tg})
+		cycles := rapid.IntRange(135, 150).Draw(t, "lsCycles")
+		for k := 0; k < cycles; k++ {
+			var ts []rwTaskSpec
+			for x := 0; x < 8; x++ {
+				ts = append(ts, rwTaskSpec{Target: tg, Variant: x % 3})
+			}
+			long = append(long, rwOp{K: "emit", I: src, Tasks: ts})
+			if k%3 != 2 {
+				long = append(long, rwOp{K: "finish", I: tg, N: rapid.IntRange(1, 14).Draw(t, "lsFin")}, rwOp{K: "ack", I: tg})
+			}
+		}
+		pos := rapid.IntRange(0, len(c.Ops)).Draw(t, "lsPos")
+		c.Ops = append(append(append([]rwOp{}, c.Ops[:pos]...), long...), c.Ops[pos:]...)
+	}
 	if lateSrc >= 0 {
 		pos := rapid.IntRange(0, len(c.Ops)).Draw(t, "lateSPos")
 		c.Ops = append(append(append([]rwOp{}, c.Ops[:pos]...), rwOp{K: "connect", Side: "S", I: lateSrc}), c.Ops[pos:]...)
